@@ -37,7 +37,7 @@ theorem ipa_commit_refuses (ck : IPA.CK F) (p : IPA.LPoly F) (ps : List (IPA.LPo
     simp only [IPA.commit, IPA.commitOne, hadm, IPA.drawRand, hh]
     simp
 
-/-- **commit, anywhere in the list**: an answered `commit` admitted every polynomial — a polynomial
+/-- **commit, anywhere in the list**: an answered `commit` let every polynomial pass — a polynomial
 outside the key's domain at any position makes the whole call fail (no partial output). -/
 theorem ipa_commit_refuses_anywhere (ck : IPA.CK F) (polys : List (IPA.LPoly F)) (rng : Bool)
     (draws : List F) (p : IPA.LPoly F) (hp : p ∈ polys) (e : Err)
@@ -74,7 +74,7 @@ theorem ipa_commit_ok (ck : IPA.CK F) :
     exact ⟨_, rfl⟩
 
 /-- **open refuses what commit refuses**, wherever it stands in the list: an answered `open`
-admitted every polynomial it combined. -/
+let every polynomial it combined pass the admission test. -/
 theorem ipa_open_refuses_admission (ck : IPA.CK F) (polys : List (IPA.LPoly F))
     (comms : List (IPA.LComm F)) (sts : List (IPA.Rand F)) (z : F) (ξs ros : List F) (rng : Bool)
     (draws : List F) (hl1 : polys.length ≤ comms.length) (hl2 : polys.length ≤ sts.length)
